@@ -320,9 +320,16 @@ public:
   /// or dequeue() operations will be woken up.
   void close()
   {
-    if (_closed.exchange(true, std::memory_order_acq_rel))
     {
-      return; // Already closed
+      // The flag is part of every wait predicate, so it must change while
+      // holding _mutex: otherwise a waiter that has just evaluated its
+      // predicate (false) but not yet blocked misses both the store and the
+      // notify below and sleeps forever (lost wake-up).
+      std::lock_guard<std::mutex> lock(_mutex);
+      if (_closed.exchange(true, std::memory_order_acq_rel))
+      {
+        return; // Already closed
+      }
     }
 
     // Wake all waiting threads
